@@ -175,4 +175,30 @@ theorem sum_rowVec_eq_one {dim : List Nat} (w : Nat → Nat → ℂ) (hw : ∀ j
   exact axis_norm_one w hw (hax m hm)
 
 
+/-- `List.foldl` with a product over `List.range` (the spelling of the executable models) is the `Finset` product -/
+theorem foldl_range_mul {R : Type} [CommSemiring R] (n : ℕ) (h : ℕ → R) :
+    (List.range n).foldl (fun acc x => acc * h x) 1 = ∏ x ∈ Finset.range n, h x := by
+  induction n with
+  | zero => simp
+  | succ n ih => rw [List.range_succ, List.foldl_append, ih, Finset.prod_range_succ]; rfl
+
+/-- **the sum over all multi-indices of a product over the axes is the product of the sums over each axis** (`np.unravel_index` order) -/
+theorem sum_prod_unflat {R : Type} [CommSemiring R] (dims : List ℕ) (g : ℕ → ℕ → R) :
+    ∑ k ∈ Finset.range (prodL dims), ∏ x ∈ Finset.range dims.length, g x ((unflat dims k).getD x 0)
+      = ∏ x ∈ Finset.range dims.length, ∑ i ∈ Finset.range (dims.getD x 1), g x i := by
+  induction dims generalizing g with
+  | nil => simp [prodL]
+  | cons d ds ih =>
+    simp only [prodL, List.length_cons]
+    rw [Finset.prod_range_succ']
+    have h1 : ∀ k, ∏ x ∈ Finset.range (ds.length + 1), g x ((unflat (d :: ds) k).getD x 0)
+        = (∏ x ∈ Finset.range ds.length, g (x + 1) ((unflat ds (k % prodL ds)).getD x 0)) * g 0 (k / prodL ds) := by
+      intro k
+      rw [Finset.prod_range_succ']
+      simp [unflat]
+    simp only [h1]
+    rw [sum_range_mul_divmod d (prodL ds) (fun a r => (∏ x ∈ Finset.range ds.length, g (x + 1) ((unflat ds r).getD x 0)) * g 0 a)]
+    simp only [List.getD_cons_succ, List.getD_cons_zero]
+    rw [← ih (fun x i => g (x + 1) i), Finset.sum_comm, ← Finset.sum_mul_sum]
+
 end Numqi.Ent
